@@ -178,3 +178,204 @@ pub fn builder_battery<S: Src>(_s: &mut S) {
     assert!(failures.is_empty(), "{} of 112 builder scenarios violate the property; first: {}", failures.len(), failures[0]);
     if std::env::var("VERIF_BATTERY_VERBOSE").is_ok() { eprintln!("battery: {} of 112 scenarios released a transaction", released); }
 }
+
+// ---------------------------------------------------------------- C09 / C16: script data hash vs emitted witness set
+fn c09_scenario(extra: u8) -> Result<(), String> {
+    let tag = format!("plutus spend, extra datums variant {}", extra);
+    let mut tb = TransactionBuilder::new(&config(true));
+    let script = PlutusScript::new(vec![1u8, 2, 3, 4, 5]);
+    let datum = PlutusData::from_bytes(vec![0x82, 0x01, 0x02]).unwrap();              // definite list [1, 2]
+    let same_value_other_bytes = PlutusData::from_bytes(vec![0x9f, 0x01, 0x02, 0xff]).unwrap(); // indefinite list [1, 2]
+    let redeemer = Redeemer::new(&RedeemerTag::new_spend(), &bn(0), &PlutusData::new_bytes(vec![9]), &ExUnits::new(&bn(10), &bn(20)));
+    let mut ib = TxInputsBuilder::new();
+    ib.add_plutus_script_input(&PlutusWitness::new(&script, &datum, &redeemer), &TransactionInput::new(&TransactionHash::from([6u8; 32]), 0), &Value::new(&bn(100_000_000)));
+    tb.set_inputs(&ib);
+    match extra {
+        1 => tb.add_extra_witness_datum(&PlutusData::new_bytes(vec![7, 7])),
+        2 => { tb.add_extra_witness_datum(&PlutusData::new_bytes(vec![7, 7])); tb.add_extra_witness_datum(&PlutusData::new_bytes(vec![7, 7])); }
+        3 => tb.add_extra_witness_datum(&datum),
+        4 => tb.add_extra_witness_datum(&same_value_other_bytes),
+        5 => { tb.add_extra_witness_datum(&same_value_other_bytes); tb.add_extra_witness_datum(&PlutusData::new_bytes(vec![8])); }
+        _ => (),
+    }
+    let mut cm = Costmdls::new();
+    let mut model = CostModel::new();
+    for i in 0..4 { model.set(i, &Int::new_i32(100 + i as i32)).unwrap(); }
+    cm.insert(&Language::new_plutus_v1(), &model);
+    tb.calc_script_data_hash(&cm).map_err(|_| format!("{}: calc_script_data_hash failed", tag))?;
+    let ws = tb_witness_set(&tb)?;
+    let body_hash = tb_script_data_hash(&tb)?;
+    // the ledger's derivation from the EMITTED witness set
+    let mut used = Costmdls::new();
+    let v1 = Language::new_plutus_v1();
+    used.insert(&v1, &cm.get(&v1).unwrap());
+    let expected = hash_script_data(&ws.redeemers().unwrap_or(Redeemers::new()), &used, ws.plutus_data());
+    if expected.to_bytes() != body_hash.to_bytes() {
+        return Err(format!("{}: script data hash in the body differs from the hash derived from the emitted witness set", tag));
+    }
+    // emitted datums: each once
+    if let Some(d) = ws.plutus_data() {
+        for i in 0..d.len() { for j in 0..i { if d.get(i).to_bytes() == d.get(j).to_bytes() { return Err(format!("{}: a datum is emitted twice", tag)); } } }
+    }
+    Ok(())
+}
+fn tb_witness_set(tb: &TransactionBuilder) -> Result<TransactionWitnessSet, String> {
+    let mut b = tb.clone();
+    b.set_fee(&bn(1_000_000));
+    Ok(b.build_tx_unsafe().map_err(|_| "build_tx_unsafe failed".to_string())?.witness_set())
+}
+fn tb_script_data_hash(tb: &TransactionBuilder) -> Result<ScriptDataHash, String> {
+    let mut b = tb.clone();
+    b.set_fee(&bn(1_000_000));
+    b.build_tx_unsafe().map_err(|_| "build_tx_unsafe failed".to_string())?.body().script_data_hash().ok_or("no script data hash".to_string())
+}
+
+pub fn c09_battery<S: Src>(_s: &mut S) {
+    let mut failures = Vec::new();
+    for extra in 0..6u8 { if let Err(e) = c09_scenario(extra) { failures.push(e); } }
+    assert!(failures.is_empty(), "{} of 6 script-data-hash scenarios violate the property; first: {}", failures.len(), failures[0]);
+}
+
+// ---------------------------------------------------------------- C10: redeemer pointers, through the public API
+fn redeemer_with_marker(tag: &RedeemerTag, marker: u8) -> Redeemer {
+    Redeemer::new(tag, &bn(0), &PlutusData::new_bytes(vec![marker]), &ExUnits::new(&bn(1), &bn(1)))
+}
+/// returns Err when a redeemer of the built transaction does not point at the item it was attached to
+fn c10_scenario(variant: u8) -> Result<(), String> {
+    let tag = format!("pointer scenario {}", variant);
+    let mut tb = TransactionBuilder::new(&config(true));
+    // inputs: two key inputs around one Plutus input (sorted by outpoint)
+    let mut ib = TxInputsBuilder::new();
+    let pscript = PlutusScript::new(vec![9u8, 9, 9, variant]);
+    let spend_marker = 11u8;
+    let hashes: [[u8; 32]; 3] = [[1u8; 32], [5u8; 32], [9u8; 32]];
+    let plutus_pos = (variant % 3) as usize;
+    for (i, h) in hashes.iter().enumerate() {
+        let txin = TransactionInput::new(&TransactionHash::from(*h), 0);
+        if i == plutus_pos {
+            ib.add_plutus_script_input(&PlutusWitness::new(&pscript, &PlutusData::new_bytes(vec![1]), &redeemer_with_marker(&RedeemerTag::new_spend(), spend_marker)), &txin, &Value::new(&bn(500_000_000)));
+        } else {
+            ib.add_key_input(&kh(1), &txin, &Value::new(&bn(500_000_000)));
+        }
+    }
+    tb.set_inputs(&ib);
+    // mint: one Plutus policy and several native policies (their hashes fall on both sides of the Plutus one)
+    let mut mb = MintBuilder::new();
+    let mint_script = PlutusScript::new(vec![7u8, 7, variant]);
+    let mint_marker = 22u8;
+    mb.add_asset(&MintWitness::new_plutus_script(&PlutusScriptSource::new(&mint_script), &redeemer_with_marker(&RedeemerTag::new_mint(), mint_marker)), &AssetName::new(vec![1]).unwrap(), &Int::new_i32(5)).map_err(|_| "mint add failed".to_string())?;
+    for b in 0..6u8 {
+        mb.add_asset(&MintWitness::new_native_script(&NativeScriptSource::new(&native_script(40 + b + 10 * variant))), &AssetName::new(vec![2]).unwrap(), &Int::new_i32(3)).map_err(|_| "mint add failed".to_string())?;
+    }
+    tb.set_mint_builder(&mb);
+    // certificates: key-credential registrations around one script-credential deregistration
+    let cert_script = PlutusScript::new(vec![5u8, variant]);
+    let cert_marker = 33u8;
+    let mut cb = CertificatesBuilder::new();
+    let script_cert = Certificate::new_stake_deregistration(&StakeDeregistration::new(&Credential::from_scripthash(&cert_script.hash())));
+    let cert_pos = (variant % 3) as usize;
+    for i in 0..3usize {
+        if i == cert_pos {
+            cb.add_with_plutus_witness(&script_cert, &PlutusWitness::new_without_datum(&cert_script, &redeemer_with_marker(&RedeemerTag::new_cert(), cert_marker))).map_err(|_| "cert add failed".to_string())?;
+        } else {
+            cb.add(&Certificate::new_stake_delegation(&StakeDelegation::new(&kc(80 + i as u8), &kh(90)))).map_err(|_| "cert add failed".to_string())?;
+        }
+    }
+    tb.set_certs_builder(&cb);
+    tb.set_fee(&bn(2_000_000));
+    let tx = tb.build_tx_unsafe().map_err(|_| format!("{}: build failed", tag))?;
+    let body = tx.body();
+    let reds = tx.witness_set().redeemers().ok_or(format!("{}: no redeemers emitted", tag))?;
+    let mut seen = 0;
+    for i in 0..reds.len() {
+        let r = reds.get(i);
+        let idx = u64::from(r.index()) as usize;
+        let marker = r.data().as_bytes().map(|b| b[0]).unwrap_or(0);
+        match marker {
+            11 => {
+                seen += 1;
+                let ins = body.inputs();
+                if idx >= ins.len() || ins.get(idx).transaction_id().to_bytes() != hashes[plutus_pos].to_vec() {
+                    return Err(format!("{}: spending redeemer points at input {} which is not the script-locked input", tag, idx));
+                }
+            }
+            22 => {
+                seen += 1;
+                let keys = body.mint().unwrap().keys();
+                if idx >= keys.len() || keys.get(idx).to_bytes() != mint_script.hash().to_bytes() {
+                    return Err(format!("{}: minting redeemer points at policy {} which is not the Plutus policy", tag, idx));
+                }
+            }
+            33 => {
+                seen += 1;
+                let certs = body.certs().unwrap();
+                if idx >= certs.len() || certs.get(idx).to_bytes() != script_cert.to_bytes() {
+                    return Err(format!("{}: certificate redeemer points at certificate {} which is not the script certificate", tag, idx));
+                }
+            }
+            _ => return Err(format!("{}: unknown redeemer", tag)),
+        }
+    }
+    if seen != 3 { return Err(format!("{}: {} redeemers emitted for 3 script uses", tag, seen)); }
+    Ok(())
+}
+pub fn c10_pointers<S: Src>(_s: &mut S) {
+    let mut failures = Vec::new();
+    for v in 0..6u8 { if let Err(e) = c10_scenario(v) { failures.push(e); } }
+    assert!(failures.is_empty(), "{} of 6 pointer scenarios violate the property; first: {}", failures.len(), failures[0]);
+}
+
+// ---------------------------------------------------------------- C01 / C03: struct-level codecs on crafted inputs
+fn unhex(s: &str) -> Vec<u8> { (0..s.len() / 2).map(|i| u8::from_str_radix(&s[2 * i..2 * i + 2], 16).unwrap()).collect() }
+
+/// decode -> encode -> decode on inputs with present-but-empty collections, optional fields at their boundaries,
+/// legacy (untagged) sets: the re-encoding must be well-formed CBOR and decode to a value that re-encodes identically
+pub fn c01_battery<S: Src>(_s: &mut S) {
+    let failures: std::cell::RefCell<Vec<String>> = std::cell::RefCell::new(Vec::new());
+    let check = |what: &str, bytes: Vec<u8>, enc: &dyn Fn(&[u8]) -> Option<Vec<u8>>| {
+        if let Some(b2) = enc(&bytes) {
+            if crate::wellformed::item_end(&b2, 0, 12) != Some(b2.len()) {
+                failures.borrow_mut().push(format!("{}: re-encoding of {:02x?} is malformed CBOR: {:02x?}", what, bytes, b2));
+            } else {
+                match enc(&b2) {
+                    Some(b3) => if b3 != b2 { failures.borrow_mut().push(format!("{}: re-encoding is not stable for {:02x?}", what, bytes)); },
+                    None => failures.borrow_mut().push(format!("{}: own output {:02x?} does not decode", what, b2)),
+                }
+            }
+        }
+    };
+    let ws = |b: &[u8]| TransactionWitnessSet::from_bytes(b.to_vec()).ok().map(|v| v.to_bytes());
+    for h in ["a0", "a10080", "a100d9010280", "a20080018 0".replace(" ", "").as_str(), "a10180", "a10280", "a10480", "a10580", "a105a0", "a30080018002 80".replace(" ", "").as_str(), "a1049f ff".replace(" ", "").as_str()] {
+        check("TransactionWitnessSet", unhex(h), &ws);
+    }
+    let body = |b: &[u8]| TransactionBody::from_bytes(b.to_vec()).ok().map(|v| v.to_bytes());
+    for h in ["a300800180020 0".replace(" ", "").as_str(), "a40080018002000480", "a400800180020005a0", "a400800180020009a0", "a40080018002000d80", "a40080018002000e80", "a40080018002001280", "a4008001800200030 0".replace(" ", "").as_str(),
+              "a500800180020003000800", "a4008001800200 1500".replace(" ", "").as_str(), "a4008001800200 1600".replace(" ", "").as_str()] {
+        check("TransactionBody", unhex(h), &body);
+    }
+    // every scalar optional key on its own and all together (values chosen minimal but valid)
+    let h32 = "5820".to_string() + &"11".repeat(32);
+    let opt_fields: Vec<(u8, String)> = vec![(3, "19ffff".into()), (7, h32.clone()), (8, "1a00010000".into()), (11, h32.clone()), (15, "01".into()), (17, "1b00000001 00000000".replace(" ", "")), (21, "01".into()), (22, "01".into())];
+    for (k, v) in &opt_fields {
+        let key = if *k < 24 { format!("{:02x}", k) } else { format!("18{:02x}", k) };
+        check("TransactionBody", unhex(&format!("a400800180020a{}{}", key, v)), &body);
+    }
+    let mut all = format!("a{:x}00800180020a", 3 + opt_fields.len());
+    for (k, v) in &opt_fields { all += &(if *k < 24 { format!("{:02x}", k) } else { format!("18{:02x}", k) }); all += v; }
+    check("TransactionBody", unhex(&all), &body);
+    // the decoded value must carry every field it was given (value-level check through the typed getters)
+    if let Ok(b) = TransactionBody::from_bytes(unhex(&all)) {
+        let ok = b.ttl_bignum().map(u64::from) == Some(0xffff) && b.auxiliary_data_hash().is_some() && b.validity_start_interval_bignum().map(u64::from) == Some(0x10000)
+            && b.script_data_hash().is_some() && b.network_id().is_some() && b.total_collateral().map(u64::from) == Some(1u64 << 32)
+            && b.current_treasury_value().map(u64::from) == Some(1) && b.donation().map(u64::from) == Some(1) && u64::from(b.fee()) == 10;
+        if !ok { failures.borrow_mut().push("TransactionBody: a scalar optional field is lost or altered by decoding".to_string()); }
+    } else { failures.borrow_mut().push("TransactionBody: body with all scalar optional fields does not decode".to_string()); }
+    let out = |b: &[u8]| TransactionOutput::from_bytes(b.to_vec()).ok().map(|v| v.to_bytes());
+    for h in ["82581d60 00000000000000000000000000000000000000000000000000000000 00".replace(" ", "").as_str(),
+              "a200581d60 00000000000000000000000000000000000000000000000000000000 0100".replace(" ", "").as_str(),
+              "82581d60 00000000000000000000000000000000000000000000000000000000 8200a0".replace(" ", "").as_str()] {
+        check("TransactionOutput", unhex(h), &out);
+    }
+    let failures = failures.into_inner();
+    assert!(failures.is_empty(), "{} struct-level codec scenarios violate the round-trip / well-formedness property; first: {}", failures.len(), failures[0]);
+}
